@@ -6,17 +6,25 @@ from .common import TRUSTED, Ctx
 def check(rep):
     ctx = Ctx(rep)
     ER.rule_args_unmodified(ctx)
-    ER.rule_returns_element(ctx)
-    ER.rule_guards(ctx)
-    ER.rule_unweighted(ctx)
-    ER.rule_choice_search(ctx, rid="C16.SHARED-TAIL", parts=("prefix", "clamp"))
+    from . import choicerules as CR
+    # abstract interpretation of the function over every ordering class of (prefix sums, u*total) for n <= 4, every malformed
+    # argument class and the unweighted call; the syntactic idiom rules are the fallback when it cannot follow the code
+    if not CR.report(ctx, "C16"):
+        ER.rule_returns_element(ctx)
+        ER.rule_guards(ctx)
+        ER.rule_unweighted(ctx)
+        ER.rule_choice_search(ctx, rid="C16.SHARED-TAIL", parts=("prefix", "clamp"))
     ER.rule_random_guarded(ctx, rid="C16.RANDOM-DELEGATES")
     ER.rule_retained_arguments(ctx, rid="C16.NO-RETAINED-ARGUMENT", modules={"binning/binning.py"})
     ER.rule_value_keyed_caches(ctx, rid="C16.NO-VALUE-KEYED-CACHE", modules={"binning/binning.py"},
                                functions={"deterministic_choice", "deterministic_proba"})
     rep.assume("NOT decided: floor(u*n) == bisect on equal integer weights in floating point")
     rep.assume("random.choices' own contract (never a zero-weight item) is trusted")
-    return ("Parameters never mutated (alias-aware); every return is an element read of the population or random.choices(...)[0] "
+    return ("Abstract interpretation of deterministic_choice over the finite domain of orderings (n <= 4 groups, every set of zero weights, "
+            "u*total strictly inside a slice / exactly on a boundary / rounded up to the total; weights or running totals; every "
+            "malformed-argument class; the unweighted call) - each class must yield the declared group resp. the documented error and "
+            "leave the arguments untouched. Fallback when the code leaves that domain: the syntactic rules - "
+            "parameters never mutated (alias-aware); every return is an element read of the population or random.choices(...)[0] "
             "with the three arguments forwarded by keyword; on every path that returns while weights of either kind may be present "
             "the three documented guards were evaluated and the both-kinds case raises TypeError (path enumeration with None-facts); "
             "weights and cum_weights share one tail; the function retains no caller argument and no ==-keyed cache between calls.", TRUSTED)
